@@ -35,18 +35,6 @@ def documentedException (C : Ctx K) (rule : Rule) (f : String) (i0 i1 : Operand 
   || (rule == .comparison && (u0.v.isDimensionless || u1.v.isDimensionless))
   || (f == C.T.equalName || f == C.T.notEqualName)
 
-/-- the zero exception of the code reaches further than the documented one: it is entered
-    whenever one operand is not a `unyt_array`, also when the all-zero operand is the
-    `unyt_array` itself or a list of quantities (findings `ufunc|zero-unyt-operand`,
-    `ufunc|zero-quantity-list`) -/
-def undocumentedZeroAdoption (i0 i1 : Operand K) : Bool :=
-  zeroAdoptionApplies i0 i1 && !(zeroBare i0 || zeroBare i1)
-
-/-- an integer-typed `out=` (in-place operators on integer arrays) -/
-def intOut : OutSpec → Bool
-  | .one o => o.intDtype
-  | _ => false
-
 def Run.returned (r : Run K) : Bool :=
   match r.result with
   | .ok _ => true
@@ -54,84 +42,58 @@ def Run.returned (r : Run K) : Bool :=
 
 /-! ## the dispatcher raises on a dimension mismatch -/
 
+/-- the zero exception of the code is exactly the documented one: the adopting operand is bare -/
+theorem zero_adoption_is_documented (i0 i1 : Operand K) :
+    zeroAdoptionApplies i0 i1 = (zeroBare i0 || zeroBare i1) := by
+  cases i0 <;> cases i1 <;> simp [zeroAdoptionApplies, zeroBare, Operand.hasNoUnits, Operand.data]
+
 /-- C01 for the ufunc dispatcher, at full strength: for every context, every binary call of a
     ufunc mapped to a checked rule, every pair of operand descriptors whose dimensions differ and
     that falls under none of the three documented exceptions, the call raises
-    `UnitOperationError` and has no effect on any operand. -/
-def C01_dispatch_full (K : Type) [Add K] [Sub K] [Mul K] [Div K] [OfNat K 0] [OfNat K 1] [BEq K] [RPow K] : Prop :=
-  ∀ (C : Ctx K) (_ : UeqSound C.ueq) (c : Call K) (i0 i1 : Operand K) (rule : Rule)
-    (c0 c1 : Option (UnitR K)),
-    c.inputs = [i0, i1] → (c.ufunc == C.T.powerName) = false →
-    C.T.ruleOf c.ufunc = some rule → rule.checked = true →
-    coerce C.ueq i0 = .ok c0 → coerce C.ueq i1 = .ok c1 →
-    (resolved i0 c0).v.dim ≠ (resolved i1 c1).v.dim →
-    documentedException C rule c.ufunc i0 i1 (resolved i0 c0) (resolved i1 c1) = false →
-    (dispatch C c).result = .error .UnitOperationError ∧ (dispatch C c).effects = []
-
-/-- What the faithful model satisfies: the same statement outside two explicit, decidable
-    regions — the zero exception reaching operands that are not bare, and an integer `out=`
-    (which is made a float array before anything is checked; numbers and unit are unchanged). -/
-theorem dispatch_raises_on_mismatch_partial
+    `UnitOperationError` and has no effect on any operand (an integer `out=` is left as it is). -/
+theorem dispatch_raises_on_mismatch
     (C : Ctx K) (hs : UeqSound C.ueq) (c : Call K) (i0 i1 : Operand K) (rule : Rule)
     (c0 c1 : Option (UnitR K))
     (hin : c.inputs = [i0, i1]) (hp : (c.ufunc == C.T.powerName) = false)
     (hr : C.T.ruleOf c.ufunc = some rule) (hc : rule.checked = true)
     (h0 : coerce C.ueq i0 = .ok c0) (h1 : coerce C.ueq i1 = .ok c1)
     (hd : (resolved i0 c0).v.dim ≠ (resolved i1 c1).v.dim)
-    (hx : documentedException C rule c.ufunc i0 i1 (resolved i0 c0) (resolved i1 c1) = false)
-    (hz : undocumentedZeroAdoption i0 i1 = false) :
-    (dispatch C c).result = .error .UnitOperationError
-    ∧ (intOut c.out = false → (dispatch C c).effects = [])
-    ∧ (∀ e ∈ (dispatch C c).effects, e.harmless = true) := by
+    (hx : documentedException C rule c.ufunc i0 i1 (resolved i0 c0) (resolved i1 c1) = false) :
+    (dispatch C c).result = .error .UnitOperationError ∧ (dispatch C c).effects = [] := by
   simp only [documentedException, Bool.or_eq_false_iff, Bool.and_eq_false_iff] at hx
   obtain ⟨⟨⟨hz0, hz1⟩, hdl⟩, heq, hne⟩ := hx
   have hza : zeroAdoptionApplies i0 i1 = false := by
-    simp only [undocumentedZeroAdoption, hz0, hz1, Bool.or_self, Bool.not_false, Bool.and_true] at hz
-    exact hz
+    rw [zero_adoption_is_documented, hz0, hz1]; rfl
   have href : commensurate C rule c.ufunc i0 i1 (resolved i0 c0) (resolved i1 c1) = .refuse := by
     apply commensurate_refuse C hs rule c.ufunc i0 i1 _ _ hd hza
     intro hrc
     subst hrc
     simp only [BEq.rfl, reduceCtorEq, false_or] at hdl
     exact ⟨hdl.1, hdl.2, heq, hne⟩
-  have key : dispatch C c = ⟨prepOut C.T c.ufunc c.out, .error .UnitOperationError⟩ := by
-    simp only [dispatch, hin, binaryPath, h0, h1, hp, hr, Bool.false_eq_true, if_false, stdBinary, hc, if_true]
+  have hfd : (rule == Rule.floorDivide) = false := by
+    cases rule <;> first | rfl | (simp [Rule.checked] at hc)
+  have hres : rule.rescales = true := by simp [Rule.rescales, hc]
+  have key : dispatch C c = ⟨[], .error .UnitOperationError⟩ := by
+    simp only [dispatch, hin, binaryPath, h0, h1, hp, hr, Bool.false_eq_true, if_false, stdBinary, hfd,
+      Bool.false_and, hres, if_true]
     simp only [resolved] at href
     split
     · rfl
     · simp only [href]
   rw [key]
-  refine ⟨rfl, ?_, ?_⟩
-  · intro ho
-    cases hout : c.out with
-    | none => simp [prepOut]
-    | many os => simp [prepOut]
-    | one o =>
-      simp only [intOut, hout] at ho
-      simp [prepOut, ho]
-  · intro e he
-    cases hout : c.out with
-    | none => simp [prepOut, hout] at he
-    | many os => simp [prepOut, hout] at he
-    | one o =>
-      simp only [prepOut, hout] at he
-      split at he
-      · simp at he
-      · split at he
-        · simp at he; subst he; rfl
-        · simp at he
+  exact ⟨rfl, rfl⟩
 
 /-! ## exact characterisation of the exceptions -/
 
 /-- When the dimensions differ, the verdict of the check is decided by exactly these cases, in
-    this order: zero adoption by the first operand, by the second; for comparison rules a
-    dimensionless first operand, a dimensionless second operand, `==` (all-False), `!=`
-    (all-True); refusal in every other case. -/
+    this order: a bare all-zero first operand adopts, a bare all-zero second operand adopts; for
+    comparison rules a dimensionless first operand, a dimensionless second operand, `==`
+    (all-False), `!=` (all-True); refusal in every other case. -/
 theorem commensurate_spec (C : Ctx K) (hs : UeqSound C.ueq) (rule : Rule) (f : String)
     (i0 i1 : Operand K) (u0 u1 : UnitR K) (hd : u0.v.dim ≠ u1.v.dim) :
     commensurate C rule f i0 i1 u0 u1 =
-      if zeroAdoptionApplies i0 i1 && i0.data.allZero then .pass u1 u1 true
-      else if zeroAdoptionApplies i0 i1 then .pass u0 u0 true
+      if zeroBare i0 then .pass u1 u1 true
+      else if zeroBare i1 then .pass u0 u0 true
       else if rule == .comparison && u0.v.isDimensionless then .pass u1 u1 true
       else if rule == .comparison && u1.v.isDimensionless then .pass u0 u0 true
       else if rule == .comparison && f == C.T.equalName then .early false
@@ -141,19 +103,17 @@ theorem commensurate_spec (C : Ctx K) (hs : UeqSound C.ueq) (rule : Rule) (f : S
     cases h : C.ueq u0.v u1.v with
     | false => rfl
     | true => exact absurd (hs _ _ h) hd
-  by_cases hz : zeroAdoptionApplies i0 i1 = true
-  · have hg : (!(i0.isUnyt) || !(i1.isUnyt)) = true := by
-      simp only [zeroAdoptionApplies, Bool.and_eq_true] at hz; exact hz.1
-    have hzz : (i0.data.allZero || i1.data.allZero) = true := by
-      simp only [zeroAdoptionApplies, Bool.and_eq_true] at hz; exact hz.2
-    by_cases h0 : i0.data.allZero = true
-    · simp [commensurate, hne, adoptZero, hg, h0, hz]
-    · have h0' : i0.data.allZero = false := by simpa using h0
-      have h1 : i1.data.allZero = true := by simpa [h0'] using hzz
-      simp [commensurate, hne, adoptZero, hg, h0', h1, hz]
-  · have hz' : zeroAdoptionApplies i0 i1 = false := by simpa using hz
-    simp only [commensurate, hne, adoptZero_none i0 i1 u0 u1 hz', dim_bne_of_ne hd, hz']
-    cases hr : (rule == Rule.comparison) <;> simp
+  have hb0 : (i0.hasNoUnits && i0.data.allZero) = zeroBare i0 := by
+    cases i0 <;> simp [zeroBare, Operand.hasNoUnits, Operand.data]
+  have hb1 : (i1.hasNoUnits && i1.data.allZero) = zeroBare i1 := by
+    cases i1 <;> simp [zeroBare, Operand.hasNoUnits, Operand.data]
+  simp only [commensurate, hne, adoptZero, hb0, hb1, Bool.false_eq_true, if_false]
+  cases h0 : zeroBare i0
+  · cases h1 : zeroBare i1
+    · simp only [Bool.false_eq_true, if_false, dim_bne_of_ne hd, if_true]
+      cases hr : (rule == Rule.comparison) <;> simp
+    · simp
+  · simp
 
 /-- `==` between incommensurable operands answers all-False, `!=` all-True; the only effects are
     on `out=` (written, and labelled dimensionless; a 0-d second operand with `out=` hits an
@@ -171,7 +131,9 @@ theorem eq_ne_mismatch_answers (C : Ctx K) (hs : UeqSound C.ueq) (c : Call K) (i
     (hout : ∀ os, c.out ≠ .many os) (hsh : c.out = .none ∨ (i1.data.shape == []) = false) :
     ∃ o, (dispatch C c).result = .ok o ∧ o.early = some isNe ∧ o.unit = none := by
   have hspec := commensurate_spec C hs .comparison c.ufunc i0 i1 _ _ hd
-  simp only [hz, Bool.false_and, Bool.false_eq_true, if_false, BEq.rfl, Bool.true_and, hd0, hd1] at hspec
+  have hzb : zeroBare i0 = false ∧ zeroBare i1 = false := by
+    rw [zero_adoption_is_documented, Bool.or_eq_false_iff] at hz; exact hz
+  simp only [hzb.1, hzb.2, Bool.false_eq_true, if_false, BEq.rfl, Bool.true_and, hd0, hd1] at hspec
   have hchk : commensurate C .comparison c.ufunc i0 i1 (resolved i0 c0) (resolved i1 c1) = .early isNe := by
     rw [hspec, hf]
     cases isNe
@@ -180,7 +142,9 @@ theorem eq_ne_mismatch_answers (C : Ctx K) (hs : UeqSound C.ueq) (c : Call K) (i
   simp only [dispatch, hin, binaryPath, h0, h1, hp, hr, Bool.false_eq_true, if_false, stdBinary]
   simp only [resolved] at hchk
   have hkr : ((Rule.comparison == Rule.preserve) = false) := by decide
-  simp only [hkr, Bool.false_and, Bool.false_eq_true, if_false, Rule.checked, if_true, hchk]
+  have hfd : ((Rule.comparison == Rule.floorDivide) = false) := by decide
+  have hres : Rule.comparison.rescales = true := by decide
+  simp only [hkr, hfd, Bool.false_and, Bool.false_eq_true, if_false, hres, if_true, hchk]
   cases hco : c.out with
   | none => exact ⟨_, rfl, rfl, rfl⟩
   | one o =>
@@ -199,9 +163,9 @@ theorem zero_bare_adopts_partner (C : Ctx K) (hs : UeqSound C.ueq) (rule : Rule)
     ∧ commensurate C rule f (.bare d1) (.unyt cls u0 d0) UnitR.null u0 = .pass u0 u0 true := by
   constructor
   · rw [commensurate_spec C hs rule f _ _ _ _ hd]
-    simp [zeroAdoptionApplies, Operand.isUnyt, Operand.data, hz0, hz1]
+    simp [zeroBare, hz1]
   · rw [commensurate_spec C hs rule f _ _ _ _ (Ne.symm hd)]
-    simp [zeroAdoptionApplies, Operand.isUnyt, Operand.data, hz0, hz1]
+    simp [zeroBare, hz1]
 
 /-- an ordering comparison accepts a dimensionless operand: the numbers are compared as they are -/
 theorem comparison_accepts_dimensionless (C : Ctx K) (hs : UeqSound C.ueq) (f : String)
@@ -215,7 +179,9 @@ theorem comparison_accepts_dimensionless (C : Ctx K) (hs : UeqSound C.ueq) (f : 
     | true =>
       simp only [UnitV.isDimensionless, beq_iff_eq] at h h1
       exact absurd (h.trans h1.symm) hd
-  simp [hz, h0, h1]
+  have hzb : zeroBare i0 = false ∧ zeroBare i1 = false := by
+    rw [zero_adoption_is_documented, Bool.or_eq_false_iff] at hz; exact hz
+  simp [hzb.1, hzb.2, h0, h1]
 
 /-- a list of quantities whose items do not all have the first item's dimension is refused by the
     coercion (`IterableUnitCoercionError`), so the call raises before anything else happens -/
@@ -250,6 +216,7 @@ theorem coerce_refuses_mixed_list (ueq : UnitV K → UnitV K → Bool) (hs : Ueq
     operand's unit (the code routes them through the one-input branch) -/
 theorem reduce_accumulate_keep_unit (C : Ctx K) (c : Call K) (cls : Cls) (u : UnitR K) (d : Data)
     (rule : Rule) (hin : c.inputs = [.unyt cls u d]) (hk : c.kernelErr = none) (ho : c.out = .none)
+    (hi : c.initial = none)
     (hr : C.T.ruleOf c.ufunc = some rule) (hrule : rule = .preserve ∨ rule = .passthrough)
     (hnt : C.T.trig.contains c.ufunc = false)
     (hmd : (c.ufunc == C.T.multiplyName || c.ufunc == C.T.divideName) = false) :
@@ -257,8 +224,8 @@ theorem reduce_accumulate_keep_unit (C : Ctx K) (c : Call K) (cls : Cls) (u : Un
   have hnt' : ¬ c.ufunc ∈ C.T.trig := by simpa using hnt
   have hmd' : ¬ (c.ufunc = C.T.multiplyName ∨ c.ufunc = C.T.divideName) := by simpa using hmd
   rcases hrule with h | h <;> subst h <;>
-    simp [dispatch, hin, unaryPath, hk, ho, hr, hnt', hmd', applyRule1, wrapUp, wrapClassFails,
-      finishOut, kernelWrites, prepOut]
+    simp [dispatch, hin, unaryPath, hk, ho, hi, hr, hnt', hmd', applyRule1, wrapUp, wrapClassFails,
+      finishOut, kernelWrites, prepOut, Except.map]
 
 /-- the operator forms `a == b` / `a != b` (`unyt_array.__eq__`, `__ne__`) never let the two
     unit refusals escape: they answer all-False / all-True instead, with the effects already done -/
@@ -268,8 +235,39 @@ theorem eq_ne_operator_answers (isNe : Bool) (r : Run K)
       ∧ (eqNeOperator isNe r).effects = r.effects := by
   rcases h with h | h <;> simp [eqNeOperator, h]
 
-/-- keyword operands that the dispatcher forwards to NumPy (`initial=`, `where=`) cannot
-    influence the outcome: this is the formal content of the `reduce(initial=…)` finding -/
+/-- `reduce(x, initial=q)` at full strength: a start value whose dimension differs from the
+    operand's is refused -/
+def C01_reduce_initial_full (K : Type) [Add K] [Sub K] [Mul K] [Div K] [OfNat K 0] [OfNat K 1] [BEq K] [RPow K] : Prop :=
+  ∀ (C : Ctx K) (c : Call K) (cls : Cls) (u : UnitR K) (d : Data) (ini : Operand K) (ci : Option (UnitR K))
+    (rule : Rule),
+    c.inputs = [.unyt cls u d] → c.initial = some ini → C.T.ruleOf c.ufunc = some rule → rule.checked = true →
+    coerce C.ueq ini = .ok ci → (resolved ini ci).v.dim ≠ u.v.dim → ini.data.allZero = false →
+    ∃ e, (dispatch C c).result = .error e ∧ (dispatch C c).effects = []
+
+/-- it holds for every start value that carries units: `initial.to_value(u)` raises
+    `UnitConversionError` before anything is touched -/
+theorem reduce_initial_refuses_mismatch_partial (C : Ctx K) (c : Call K) (cls cls' : Cls)
+    (u ui : UnitR K) (d d' : Data) (rule : Rule)
+    (hin : c.inputs = [.unyt cls u d]) (hi : c.initial = some (.unyt cls' ui d'))
+    (hr : C.T.ruleOf c.ufunc = some rule) (hc : rule.checked = true)
+    (hd : ui.v.dim ≠ u.v.dim) :
+    (dispatch C c).result = .error .UnitConversionError ∧ (dispatch C c).effects = [] := by
+  simp [dispatch, hin, unaryPath, hi, hr, hc, getConversionFactor, dim_bne_of_ne hd]
+
+/-- a start value without units (a bare number) is not looked at: the outcome is that of the call
+    without `initial=` (kept finding `reduce|initial|bare`) -/
+theorem reduce_initial_bare_unchecked (C : Ctx K) (c : Call K) (d : Data) :
+    dispatch C { c with initial := some (.bare d) } = dispatch C { c with initial := none } := by
+  simp only [dispatch]
+  cases c.inputs with
+  | nil => rfl
+  | cons i rest =>
+    cases rest with
+    | nil => cases i <;> rfl
+    | cons j rest2 => cases rest2 <;> rfl
+
+/-- the other keyword operands that the dispatcher forwards to NumPy (`where=`, …) cannot
+    influence the outcome -/
 theorem dispatch_ignores_keyword_operands (C : Ctx K) (c : Call K) (extra : List (String × Operand K)) :
     dispatch C { c with extra := extra } = dispatch C c := rfl
 
@@ -309,7 +307,12 @@ def intInplaceMismatch : Call Rat :=
 /-- `np.add.reduce(unyt_array([1.,2.,3.], 'm'), initial=unyt_quantity(1., 's'))` -/
 def reduceWithInitial : Call Rat :=
   { ufunc := "add", method := .reduce, inputs := [.unyt .array metre arr3],
-    extra := [("initial", .unyt .quantity second {})] }
+    initial := some (.unyt .quantity second {}) }
+
+/-- `np.add.reduce(unyt_array([1.,2.,3.], 'm'), initial=1.0)` -/
+def reduceWithBareInitial : Call Rat :=
+  { ufunc := "add", method := .reduce, inputs := [.unyt .array metre arr3],
+    initial := some (.bare {}) }
 
 /-- `np.add.reduce(unyt_array([1.,2.,3.], 'm'))` -/
 def plainReduce : Call Rat :=
@@ -322,43 +325,53 @@ def plainMismatch : Call Rat :=
 end Witness
 
 open Witness in
-/-- non-vacuity of `dispatch_raises_on_mismatch_partial`: metres + seconds meets every hypothesis -/
+/-- non-vacuity of `dispatch_raises_on_mismatch`: metres + seconds meets every hypothesis -/
 example : (dispatch ctx plainMismatch).result = .error .UnitOperationError ∧ (dispatch ctx plainMismatch).effects = [] :=
-  let h := dispatch_raises_on_mismatch_partial ctx ctx_sound plainMismatch
+  dispatch_raises_on_mismatch ctx ctx_sound plainMismatch
     (.unyt .array metre arr3) (.unyt .array second arr3) .preserve (some metre) (some second)
-    rfl (by decide +kernel) (by decide +kernel) rfl rfl rfl (by decide) (by decide +kernel) (by decide)
-  ⟨h.1, h.2.1 rfl⟩
+    rfl (by decide +kernel) (by decide +kernel) rfl rfl rfl (by decide) (by decide +kernel)
 
 open Witness in
-/-- an all-zero `unyt_array` loses its unit to a non-zero bare operand: a value comes back -/
-theorem zero_unyt_operand_counterexample :
-    Run.returned (dispatch ctx zeroUnytPlusBare) = true := by decide +kernel
+/-- instances that used to be counterexamples: an all-zero `unyt_array` next to a non-zero bare
+    array, an all-zero list of quantities in seconds, an integer in-place target — all refused with
+    no effect -/
+example : (dispatch ctx zeroUnytPlusBare).result = .error .UnitOperationError ∧ (dispatch ctx zeroUnytPlusBare).effects = [] :=
+  dispatch_raises_on_mismatch ctx ctx_sound zeroUnytPlusBare (.unyt .array metre zeros3) (.bare arr3) .preserve
+    (some metre) none rfl (by decide +kernel) (by decide +kernel) rfl rfl rfl (by decide) (by decide +kernel)
 
 open Witness in
-/-- an all-zero list of quantities in seconds is added to metres: a value comes back -/
-theorem zero_quantity_list_counterexample :
-    Run.returned (dispatch ctx unytPlusZeroQuantityList) = true := by decide +kernel
-
-open Witness in
-/-- an integer `out=` is retyped although the call then raises -/
-theorem int_out_retyped_counterexample :
-    (dispatch ctx intInplaceMismatch).effects.length = 1
-    ∧ Run.returned (dispatch ctx intInplaceMismatch) = false := by decide +kernel
-
-open Witness in
-/-- `initial=` in seconds is folded into a sum of metres: a value in metres comes back -/
-theorem reduce_initial_counterexample :
-    Run.returned (dispatch ctx reduceWithInitial) = true := by decide +kernel
-
-open Witness in
-/-- the full-strength statement does not hold of the faithful model -/
-theorem C01_dispatch_counterexample : ¬ C01_dispatch_full Rat := by
-  intro h
-  have := h ctx ctx_sound zeroUnytPlusBare (.unyt .array metre zeros3) (.bare arr3) .preserve
-    (some metre) none rfl (by decide +kernel) (by decide +kernel) rfl rfl rfl (by decide)
+example : (dispatch ctx unytPlusZeroQuantityList).result = .error .UnitOperationError
+    ∧ (dispatch ctx unytPlusZeroQuantityList).effects = [] :=
+  dispatch_raises_on_mismatch ctx ctx_sound unytPlusZeroQuantityList (.unyt .array metre arr3)
+    (.seq [some second, some second, some second] zeros3) .preserve
+    (some metre) (some second) rfl (by decide +kernel) (by decide +kernel) rfl rfl (by rfl) (by decide)
     (by decide +kernel)
-  have hr := zero_unyt_operand_counterexample
-  simp only [Run.returned, this.1] at hr
+
+open Witness in
+example : (dispatch ctx intInplaceMismatch).result = .error .UnitOperationError
+    ∧ (dispatch ctx intInplaceMismatch).effects = [] :=
+  dispatch_raises_on_mismatch ctx ctx_sound intInplaceMismatch (.unyt .array metre intArr3)
+    (.unyt .array second intArr3) .preserve (some metre) (some second) rfl (by decide +kernel) (by decide +kernel)
+    rfl rfl rfl (by decide) (by decide +kernel)
+
+open Witness in
+/-- non-vacuity of `reduce_initial_refuses_mismatch_partial`: `np.add.reduce(x_m, initial=1*s)` -/
+example : (dispatch ctx reduceWithInitial).result = .error .UnitConversionError ∧ (dispatch ctx reduceWithInitial).effects = [] :=
+  reduce_initial_refuses_mismatch_partial ctx reduceWithInitial .array .quantity metre second arr3 {} .preserve
+    rfl rfl (by decide +kernel) rfl (by decide)
+
+open Witness in
+/-- a bare non-zero `initial=` is folded into a sum of metres: a value in metres comes back -/
+theorem reduce_initial_bare_counterexample :
+    Run.returned (dispatch ctx reduceWithBareInitial) = true := by decide +kernel
+
+open Witness in
+theorem C01_reduce_initial_counterexample : ¬ C01_reduce_initial_full Rat := by
+  intro h
+  obtain ⟨e, he, _⟩ := h ctx reduceWithBareInitial .array metre arr3 (.bare {}) none .preserve
+    rfl rfl (by decide +kernel) rfl rfl (by decide) rfl
+  have hr := reduce_initial_bare_counterexample
+  simp only [Run.returned, he] at hr
   exact absurd hr (by decide)
 
 open Witness in
@@ -386,7 +399,7 @@ open Witness in
 /-- non-vacuity of `reduce_accumulate_keep_unit`: `np.add.reduce(x_m)` -/
 example : ∃ o, (dispatch ctx plainReduce).result = .ok o
     ∧ o.unit = some metre.v ∧ (dispatch ctx plainReduce).effects = [] :=
-  reduce_accumulate_keep_unit ctx plainReduce .array metre arr3 .preserve rfl rfl rfl (by decide +kernel) (Or.inl rfl)
+  reduce_accumulate_keep_unit ctx plainReduce .array metre arr3 .preserve rfl rfl rfl rfl (by decide +kernel) (Or.inl rfl)
     (by decide +kernel) (by decide +kernel)
 
 /-! ## table obligations (kernel-decided over the regenerated tables) -/
@@ -459,26 +472,10 @@ theorem commensurable_ufunc_refuses_mismatch
     simp only [hr] at hck
     have hx : documentedException C rule c.ufunc i0 i1 (resolved i0 c0) (resolved i1 c1) = false := by
       have hzb : zeroBare i0 = false ∧ zeroBare i1 = false := by
-        simp only [zeroAdoptionApplies, Bool.and_eq_false_iff, Bool.or_eq_false_iff] at hz
-        constructor
-        · cases i0 with
-          | bare d =>
-            rcases hz with h | h
-            · simp [Operand.isUnyt] at h
-            · simpa [zeroBare, Operand.data] using h.1
-          | unyt _ _ _ => rfl
-          | seq _ _ => rfl
-        · cases i1 with
-          | bare d =>
-            rcases hz with h | h
-            · simp [Operand.isUnyt] at h
-            · simpa [zeroBare, Operand.data] using h.2
-          | unyt _ _ _ => rfl
-          | seq _ _ => rfl
+        rw [zero_adoption_is_documented, Bool.or_eq_false_iff] at hz; exact hz
       simp [documentedException, hzb.1, hzb.2, hdl.1, hdl.2, hcu, hT, Tables.generated, heq.1, heq.2]
-    have huz : undocumentedZeroAdoption i0 i1 = false := by simp [undocumentedZeroAdoption, hz]
-    exact (dispatch_raises_on_mismatch_partial C hs c i0 i1 rule c0 c1 hin
-      (by rw [hcu, hT]; exact hpw) (by rw [hcu, hT]; exact hr) hck h0 h1 hd hx huz).1
+    exact (dispatch_raises_on_mismatch C hs c i0 i1 rule c0 c1 hin
+      (by rw [hcu, hT]; exact hpw) (by rw [hcu, hT]; exact hr) hck h0 h1 hd hx).1
 
 /-- non-vacuity: `hypot` meets the hypotheses of the combined theorem -/
 example : "hypot" ∈ Ref.C01.commensurabilityRequiring
